@@ -319,3 +319,68 @@ Proof.
   specialize (Hmax s Hs Cs). split; [exact Hmax|].
   apply (Hlam s r); auto.
 Qed.
+
+(* ---- monotonicity: later tokens are on later (or the same) lines ---- *)
+Lemma nl_count_nonneg : forall b, 0 <= nl_count b.
+Proof. intros. apply nlc_nonneg. Qed.
+
+Lemma sum_nl_nonneg : forall l, 0 <= sum_nl l.
+Proof. induction l as [|x l IH]; simpl; [lia|]. pose proof (nl_count_nonneg x). lia. Qed.
+
+Lemma sum_nl_firstn_mono : forall (l : list bytes) i j, (i <= j)%nat -> sum_nl (firstn i l) <= sum_nl (firstn j l).
+Proof.
+  induction l as [|x l IH]; intros i j H.
+  - rewrite !firstn_nil. lia.
+  - destruct i as [|i]; destruct j as [|j]; try lia.
+    + simpl firstn at 1. simpl sum_nl at 1. apply sum_nl_nonneg.
+    + cbn [firstn sum_nl]. specialize (IH i j ltac:(lia)). lia.
+Qed.
+
+Lemma tok_line_mono : forall toks lay i j,
+  Forall tok_ok toks -> length lay = length toks -> (i <= j)%nat -> (j < length toks)%nat ->
+  tok_line toks lay i <= tok_line toks lay j.
+Proof.
+  intros toks lay i j Hok Hlen Hij Hj.
+  rewrite !line_of_offset_render_lemma by (auto; lia). unfold tok_line_closed.
+  pose proof (sum_nl_firstn_mono lay (S i) (S j) ltac:(lia)).
+  pose proof (sum_nl_firstn_mono toks i j Hij). unfold token, layout in *. lia.
+Qed.
+
+(* a reporter that names, in every layout, the line of one fixed token j of a statement stays
+   inside the admissible range of that statement in every layout *)
+Theorem anchored_reporter_admissible_lemma : forall toks (s : stmt) j (report : layout -> Z),
+  Forall tok_ok toks ->
+  0 <= fst s -> fst s <= j <= snd s -> snd s < len toks ->
+  (forall lay, length lay = length toks -> report lay = tok_line toks lay (Z.to_nat j)) ->
+  forall lay, length lay = length toks -> in_range (admissible toks lay s) (report lay).
+Proof.
+  intros toks [a b] j report Hok Ha Hj Hb Hr lay Hlen. simpl in *. unfold len in Hb.
+  rewrite Hr by assumption. unfold in_range, admissible. cbn [fst snd]. split.
+  - apply tok_line_mono; auto; lia.
+  - rewrite tok_end_line_closed by (auto; lia).
+    pose proof (tok_line_mono toks lay (Z.to_nat j) (Z.to_nat b) Hok Hlen ltac:(lia) ltac:(lia)).
+    pose proof (nl_count_nonneg (nth (Z.to_nat b) toks [])). lia.
+Qed.
+
+Lemma compiler_lines_admissible_partial_lemma : forall toks stmts site s j (report : layout -> Z),
+  Forall tok_ok toks ->
+  innermost stmts site None = Some s ->
+  0 <= fst s -> fst s <= j <= snd s -> snd s < len toks ->
+  (forall lay, length lay = length toks -> report lay = tok_line toks lay (Z.to_nat j)) ->
+  exists s, innermost stmts site None = Some s /\
+            forall lay, length lay = length toks -> in_range (admissible toks lay s) (report lay).
+Proof.
+  intros toks stmts site s j report Hok Hi Ha Hj Hb Hr. exists s. split; [exact Hi|].
+  exact (anchored_reporter_admissible_lemma toks s j report Hok Ha Hj Hb Hr).
+Qed.
+
+Lemma innermost_is_innermost_lemma : forall ss t r,
+  innermost ss t None = Some r ->
+  (In r ss /\ fst r <= t <= snd r) /\
+  ((forall a b, In a ss -> In b ss -> contains a t = true -> contains b t = true ->
+                fst a <= fst b -> snd b <= snd a) ->
+   forall s, In s ss -> contains s t = true -> fst s <= fst r /\ snd r <= snd s).
+Proof.
+  intros ss t r H. split; [exact (innermost_contains ss t r H)|].
+  intros Hlam s Hs Cs. exact (innermost_minimal ss t r s H Hs Cs Hlam).
+Qed.
